@@ -88,6 +88,7 @@ class CentralizedTaskingEngine(TaskingEngine):
         """
         # Pre-conditions: reset values to ensure clean tasking state at start of every timestep
         self._observations = []
+        self._missed_observations = []
         # [NOTE]: sensor changes are collected from every task execution job of this step, so they
         #   are reset once per step, not once per finished job.
         self.sensor_changes = {}
